@@ -372,3 +372,95 @@ pub fn minimise(ctx: &mut Ctx, plan: &Plan, class: &str, step: usize, earlier: O
         in_process: false,
     }
 }
+
+fn last_digest(log: &ExecLog) -> Option<String> {
+    log.step_log.last().and_then(|l| l.rsplit(' ').next().map(String::from))
+}
+
+/// Divergence across processes: shrink both schedules (the last step of each is kept) while
+/// the two processes still disagree about the output of that last request.
+pub fn minimise_pair(ctx: &mut Ctx, a: &Plan, b: &Plan) -> (Plan, Plan) {
+    let differs = |ctx: &mut Ctx, a: &Plan, b: &Plan| -> bool {
+        if ctx.trials >= ctx.max_trials {
+            return false;
+        }
+        match (ctx.run_child(a, 30), ctx.run_child(b, 30)) {
+            (Some(x), Some(y)) => {
+                let (dx, dy) = (last_digest(&x), last_digest(&y));
+                dx.is_some() && dy.is_some() && dx != dy
+            }
+            _ => false,
+        }
+    };
+    let mut a = a.clone();
+    let mut b = b.clone();
+    if !differs(ctx, &a, &b) {
+        return (a, b);
+    }
+    for _round in 0..3 {
+        let before = a.steps.len() + b.steps.len();
+        for side in 0..2 {
+            let mut chunk = {
+                let cur = if side == 0 { &a } else { &b };
+                (cur.steps.len() / 2).max(1)
+            };
+            loop {
+                let mut i = 0;
+                let mut progressed = false;
+                loop {
+                    let cur = if side == 0 { a.clone() } else { b.clone() };
+                    if i + 1 >= cur.steps.len() {
+                        break;
+                    }
+                    let j = (i + chunk).min(cur.steps.len() - 1);
+                    if j <= i {
+                        break;
+                    }
+                    let mut cand = cur.clone();
+                    cand.steps.drain(i..j);
+                    cand.compact();
+                    let ok = if side == 0 { differs(ctx, &cand, &b) } else { differs(ctx, &a, &cand) };
+                    if ok {
+                        if side == 0 {
+                            a = cand;
+                        } else {
+                            b = cand;
+                        }
+                        progressed = true;
+                    } else {
+                        i = j;
+                    }
+                }
+                if chunk == 1 && !progressed {
+                    break;
+                }
+                if !progressed {
+                    chunk = (chunk / 2).max(1);
+                }
+                if ctx.trials >= ctx.max_trials {
+                    break;
+                }
+            }
+        }
+        if a.steps.len() + b.steps.len() == before {
+            break;
+        }
+    }
+    // collapse threads and keys on both sides
+    for side in 0..2 {
+        let mut cand = if side == 0 { a.clone() } else { b.clone() };
+        for st in &mut cand.steps {
+            st.thread = "main".into();
+            st.policy = Policy::Keep;
+        }
+        let ok = if side == 0 { differs(ctx, &cand, &b) } else { differs(ctx, &a, &cand) };
+        if ok {
+            if side == 0 {
+                a = cand;
+            } else {
+                b = cand;
+            }
+        }
+    }
+    (a, b)
+}
